@@ -155,6 +155,29 @@ def names_in(e):
 
 
 def rule_E2(run_, pkg, an):
+    """Decided semantically (translated code, uninterpreted error function); the CFG rule below is the fallback when the
+    translation is impossible."""
+    from .c16 import perturb_restore_obligation, SHAPES
+    from ..algebra import run_tasks
+    fn0 = pkg.method("BaseEdge", "_calc_jacobian")
+    w0 = "%s:%d" % (fn0._gs_module, fn0.lineno)
+    tasks = [("C15-E2/perturb-restore/%s" % "+".join(vt), "C15-E2-perturb-restore", perturb_restore_obligation(vt), w0) for vt in SHAPES]
+    tasks = [t for t in tasks if run_.wants(t[0])]
+    results = run_tasks(pkg, tasks)
+    undecided = [t[0] for t, r in zip(tasks, results) if r["status"] == "error"]
+    for t, r in zip(tasks, results):
+        if r["status"] == "ok":
+            run_.ok(t[0], t[1], sample=dict(obligation=t[0], paths=r["paths"], **r["stats"]))
+        elif r["status"] == "violation":
+            run_.violation(t[0], t[1], r["detail"], where=w0)
+    run_.extra["E2_semantic"] = dict(decided=len(tasks) - len(undecided), undecided=undecided)
+    if not undecided:
+        return
+    run_.note("C15-E2: %d scenario(s) could not be translated (%s); falling back to the control-flow rule" % (len(undecided), results[[t[0] for t in tasks].index(undecided[0])]["detail"][:200]))
+    rule_E2_syntactic(run_, pkg, an)
+
+
+def rule_E2_syntactic(run_, pkg, an):
     fn, _parts = numerical_jacobian_functions(pkg)     # private helpers of _calc_jacobian are inlined
     if fn is None:
         run_.error("anchor vanished: BaseEdge._calc_jacobian")
